@@ -145,3 +145,13 @@ Example C01_ex_schedule :
     fin _ s = true /\
     pm_result json s = (None, Some [EBackend "x"; ECancelled]).
 Proof. eexists. split; [vm_compute; reflexivity|]. split; vm_compute; reflexivity. Qed.
+
+(* a backend that fails but hands a response over with its error counts as failed: one
+   entry, its fields are not merged, the others are *)
+Example C01_ex_error_with_response :
+  let outs := [OErrWith (EBackend "boom") false (Some [("partial", JBool true)]);
+               OPayload true (Some [("b", JNum "1")])] in
+  merge_run 2 (map msg_of outs)
+  = (Some {| data := Some [("b", JNum "1")]; complete := false |}, Some [EBackend "boom"]) /\
+  spec_b json_eqb outs (merge_run 2 (map msg_of outs)) = true.
+Proof. split; vm_compute; reflexivity. Qed.
